@@ -237,6 +237,30 @@ def check_signature(items):
     return {"evaluations": len(metas), "violations": violations, "disagreements": []}
 
 
+# names that look like registers but are not: legal symbols (the documented register spellings are R0..R15, Rt, FP, SP,
+# PC_ret, FP_alt in any letter case)
+NEAR_REGISTER_NAMES = ["r", "R", "rx", "R16x", "r_1", "Rt_", "fp_", "sp2", "pc", "fpalt", "R1a"]
+
+
+def check_near_register_names():
+    """a program that uses such a name as label, data label and constant conforms to every documented rule: it must be
+    accepted in every mode"""
+    violations, evals = [], 0
+    for n in NEAR_REGISTER_NAMES:
+        for text in ("LABEL({0})\nBR({0})\nHALT()\n".format(n), "CONSTANT({0}, 5)\nSET(R1, {0})\n".format(n),
+                     "DLABEL({0})\nINTEGER(1)\nSET(R1, {0})\n".format(n)):
+            for m in ["", "debug", "assemble", "preprocess"]:
+                st = progrun.make_settings(mode=m)
+                res, oplist, prog, pm, exc = real_check(text, st)
+                evals += 1
+                accepted = res is not None and not exc and res[0].startswith("ok")
+                if not accepted:
+                    violations.append({"property": "C09", "stream": "sig", "sig": "rejects-name:" + n, "case": {"text": text, "mode": m, "names": True},
+                                       "what": "the checker rejects a program that obeys the documented rules: `{}` is a legal symbol name ({})".format(
+                                           n, text.split("\n")[0])})
+    return {"evaluations": evals, "violations": violations, "disagreements": []}
+
+
 def rule_items():
     items = []
     for text in RULE_PROGRAMS:
